@@ -118,6 +118,10 @@ def _stress_programs() -> dict[str, dict[str, Any]]:
         [(2,)] * 12,
         [((2,), f32)] * 12,
     )
+    add("unused_nchw_input", lambda x, y: y * 2, [(2, 4, 4, 3), (3,)], [((2, 4, 4, 3), f32), ((3,), f32)])
+    P["unused_nchw_input"]["kw"] = {"inputs_as_nchw": [0]}
+    add("nchw_in_and_out", lambda x, y: (x * 2 + y, y), [("B", 4, 5, 3), (3,)], [(("B", 4, 5, 3), f32), ((3,), f32)])
+    P["nchw_in_and_out"]["kw"] = {"inputs_as_nchw": [0], "outputs_as_nchw": [0]}
     add("with_param", None, [("B", 4)], [(("B", 4), f32)])
     return P
 
@@ -419,6 +423,7 @@ def run_case(case: dict[str, Any], tier: str, seed: int) -> dict[str, Any]:
         params = {"deterministic": True, "scale": np.float32(2.0)} if case["name"] == "with_param" else {}
         rng = np.random.default_rng([seed, stable_hash(case["key"]) % 2**31])
         kw = dict(enable_double_precision=dp)
+        kw.update(P.get("kw", {}))
         if params:
             kw["input_params"] = params
         try:
@@ -445,7 +450,7 @@ def run_case(case: dict[str, Any], tier: str, seed: int) -> dict[str, Any]:
         except Exception as exc:  # noqa: BLE001
             return {"status": "inconclusive", "reason": "export_raises", "detail": f"{type(exc).__name__}: {str(exc)[:200]}"}
         sig_sym = [(tuple(s), np.dtype(dt)) for s, dt in P["sig"]]
-        probs, n = interface_problems(model, fn, sig_sym, params, dp, input_names=inn, output_names=outn)
+        probs, n = interface_problems(model, fn, sig_sym, params, dp, input_names=inn, output_names=outn, inputs_as_nchw=P.get("kw", {}).get("inputs_as_nchw"), outputs_as_nchw=P.get("kw", {}).get("outputs_as_nchw"))
         if adversarial:
             # accepted adversarial names must still give a valid, uniquely named model
             rec["obs"]["adversarial_names_accepted"] = 1
